@@ -225,9 +225,9 @@ def parse_version_payload(versionpayload_: bytes) -> dict:
         parsed_payload["start_height"] = int.from_bytes(
             versionpayload_[81 + user_agent_len : 81 + user_agent_len + 4], "little"
         )
-        if versionpayload_[81 + user_agent_len + 4] == b"\x01":
+        if versionpayload_[81 + user_agent_len + 4] == 1:
             parsed_payload["relay"] = True
-        elif versionpayload_[81 + user_agent_len + 4] == b"\x00":
+        elif versionpayload_[81 + user_agent_len + 4] == 0:
             parsed_payload["relay"] = False
 
         if versionpayload_[81 + user_agent_len + 4 + 1 :]:
